@@ -138,6 +138,7 @@ func runC11(c *Ctx) {
 	t := tw.Tuns[0]
 	cl := t.Client
 	stalled := false
+	clientStopped := false // the client stopped reading after the set-up was complete
 	if inflight && hostData && c.T.Bool(1, 2) {
 		// the client stops reading once host data has started to arrive: from then on only
 		// relay writes are held
@@ -154,6 +155,7 @@ func runC11(c *Ctx) {
 			return false
 		}, func() {
 			stalled = true
+			clientStopped = true
 			for _, e := range c.S.Ends() {
 				if !e.Auto && !e.Owned && !e.Closed && strings.HasPrefix(e.Name, p.Name+".") {
 					e.HoldWrites = true
@@ -215,7 +217,7 @@ func runC11(c *Ctx) {
 	// lifted; the gateway must release everything regardless.  Host-side stalls are lifted.
 	// (After the client has closed or reset, a held write is not sustainable: the peer's kernel
 	// answers with a reset, so those causes lift the stall.)
-	keepClientStall := cause == "unframeable"
+	keepClientStall := cause == "unframeable" && clientStopped
 	if keepClientStall {
 		// ... unless the packet loop itself is the one stuck behind the client (a held control
 		// response): then the gateway has not even seen the end of the tunnel yet
